@@ -97,6 +97,9 @@ SPEC_M.append(("ledger.protocol", "HSM2ProtocolLedger", [
 SPEC_M.append(("ledger.hsm2dongle", "HSM2Dongle", [
     "_send_block_header", "_do_block_operation", "advance_blockchain", "update_ancestor"]))
 SPEC_M.append(("ledger.protocol", "HSM2ProtocolLedger", [
+    "_translate_advance_result", "_translate_update_ancestor_result", "_translate_sign_error",
+    "_advance_blockchain", "_update_ancestor_block"]))
+SPEC_M.append(("ledger.protocol", "HSM2ProtocolLedger", [
     "_check_version", "_wait_and_reconnect", "_handle_bootloader", "initialize_device"]))
 # attributes of self that hold another translated object: (class, attribute) -> (module, class)
 ATTR_CLASS = {("HSM2ProtocolLedger", "hsm2dongle"): ("ledger.hsm2dongle", "HSM2Dongle"),
